@@ -282,3 +282,17 @@ SCT = [(WCS, "w_set_counter_model"), (WCS, "set_counter_is_spec"), (WCS, "w_set_
 for pid, items in (("C05", SCT),):
     if pid in PLAN:
         add_imports(pid, WHI + ["ModelCipher", "ModelCtr", "WholeProc", "WholeCtr", "WholeCtrModel", "WholeCtrVec", "WholeCtrVecModel", "WholeCtrSet"]); PLAN[pid] += items
+
+# key / tweak setters of the CTR back ends (WholeCtrKey.v)
+WCK = "WholeCtrKey.v"
+KCT = [(WCK, "w_ctr_lift_homU")]
+for pid, items in (("C10", KCT), ("C04", KCT)):
+    if pid in PLAN:
+        add_imports(pid, WHI + ["ModelCipher", "WholeMantis", "WholeMantisKey", "WholeProc", "WholeCtr", "WholeCtrKey"]); PLAN[pid] += items
+
+# non-vacuity of the call contracts (WholeContracts.v)
+WCO = "WholeContracts.v"
+CON = [(WCO, "block_contract_satisfiable"), (WCO, "par_contracts_satisfiable"), (WCO, "ex_crypt_defined")]
+for pid, items in (("C05", CON[:1] + CON[2:]), ("C07", CON[:2])):
+    if pid in PLAN:
+        add_imports(pid, WHI + ["ModelCipher", "ModelCtr", "ProofsCtr", "WholeProc", "WholeCtr", "WholeCtrModel", "WholeCtrVec", "WholeCtrVecModel", "WholePar", "WholeContracts"]); PLAN[pid] += items
